@@ -41,6 +41,10 @@ func RunSpecs(r *ev.Run, id string, filter func(conc.Spec) bool) {
 		r.Capped("scheduler-based scenarios skipped: binary not built with the instrumentation overlay")
 		return
 	}
+	if b, _ := os.ReadFile(os.Getenv("VERIF_UNMODELLED")); len(strings.TrimSpace(string(b))) > 0 {
+		// honesty about nondeterminism the scheduler does not own
+		r.Capped("the instrumented code uses runtime timers, which the scheduler does not control: interleavings that depend on a timer firing are NOT explored (" + strings.ReplaceAll(strings.TrimSpace(string(b)), "\n", "; ") + ")")
+	}
 	var wg sync.WaitGroup
 	sem := make(chan struct{}, 16)
 	for _, sp := range conc.Specs(!r.Quick()) {
